@@ -489,6 +489,21 @@ def make_param(ctx, name, ty):
             out.append((f"({lab},)", ("vargs", [d])))
         out.append(("(str, str)", ("vargs", [("str", name + "a"), ("str", name + "b")])))
         return out
+    if ty == "pairs":
+        # a list of (key, value) pairs: none, one or two; values are strings or an int
+        return [("[]", ("pairlist", [])),
+                ("[(str, str)]", ("pairlist", [(("str", name + "k0"), ("str", name + "v0"))])),
+                ("[(str, int)]", ("pairlist", [(("str", name + "k0"), ("int", name + "n0"))])),
+                ("[(str, str), (str, str)]", ("pairlist", [(("str", name + "k0"), ("str", name + "v0")),
+                                                           (("str", name + "k1"), ("str", name + "v1"))]))]
+    if ty == "seqpairs":
+        # mapping items: the value is a string or a list / tuple of two strings
+        return [("[]", ("pairlist", [])),
+                ("[(str, str)]", ("pairlist", [(("str", name + "k0"), ("str", name + "v0"))])),
+                ("[(str, [str, str])]", ("pairlist", [(("str", name + "k0"), ("strlist", name + "v0"))])),
+                ("[(str, (str, str))]", ("pairlist", [(("str", name + "k0"), ("strtuple2", name + "v0"))])),
+                ("[(str, str), (str, int)]", ("pairlist", [(("str", name + "k0"), ("str", name + "v0")),
+                                                           (("str", name + "k1"), ("int", name + "n1"))]))]
     if ty == "strtuple":
         return [("()", ("vargs", [])), ("(str,)", ("vargs", [("str", name + "0")])),
                 ("(str, str)", ("vargs", [("str", name + "a"), ("str", name + "b")]))]
@@ -530,6 +545,12 @@ def instantiate_param(ex, ctx, desc):
         return ("pydata-ref", name)
     if kind == "vargs":
         return VTuple([instantiate_param(ex, ctx, d) for d in name])
+    if kind == "pairlist":
+        return VList([VTuple([instantiate_param(ex, ctx, k), instantiate_param(ex, ctx, v)]) for k, v in name], fresh=False)
+    if kind == "strlist":
+        return VList([V.sym_str(ctx, name + "a"), V.sym_str(ctx, name + "b")], fresh=False)
+    if kind == "strtuple2":
+        return VTuple([V.sym_str(ctx, name + "a"), V.sym_str(ctx, name + "b")])
     if kind == "seglist":
         return V.VSList(V.sym_str(ctx, name, kind="segs"), fresh=False)
     if kind == "state":
